@@ -122,6 +122,11 @@ def run_response(case):
             return 'reject|generic', True
         if exc == 'None':
             raise Violation('status-error-not-raised', 'status %s/%s: caller got None instead of an error' % (case['top'], case['sub']))
+        if exc != 'StatusError' and exc.lower() != ('status' + case['sub']).lower():
+            # (a top-level code used as sub-code has a class of its own in the library's table: fine)
+            # "... and a generic error otherwise": a sub-code outside the documented table gets the generic status error, not an accident of the look-up
+            raise Violation('wrong-generic-status-error', 'status %s with sub-status %s (not one of the standard second-level codes) gave %s (%s), expected the generic StatusError'
+                            % (case['top'], case['sub'], exc, v[2]))
         return 'reject|other-sub', True
     return 'reject|' + ('version' if not ok_version else 'no-status' if case['top'] is None else 'no-assertion'), True
 
